@@ -222,6 +222,44 @@ def check(an, rep, tier):
         rep.add('P-domain', 'optima.optima_qtt', 'mode size %s %s'
                 % (spec[3:], 'rejected' if bad else 'accepted'), st3,
                 '' if st3 == 'ok' else 'wrong rejection behaviour: ' + d3)
+    # --- P-pow2: the power-of-two test of the three quantised entry points
+    # is an (in)equality.  q = int(log2(n)) is the floor only as long as
+    # log2 is exact; a one-sided comparison of 2**q with n (``2**q < n``)
+    # agrees with ``!=`` for small n and accepts a non-power-of-two as soon
+    # as log2 rounds up (n = 2**k - 1, k >= 49), a size that is normal for
+    # index maps, which never allocate n items.  Three-valued: ``!=`` = ok,
+    # a single ordering comparison guarding the raise = violation, any
+    # other spelling = unknown (no floor; P-domain above carries the floor).
+    from .. import roles as _rolesP
+
+    def _is_pow2(e):
+        return isinstance(e, ast.BinOp) and isinstance(e.op, ast.Pow) and \
+            isinstance(e.left, ast.Constant) and e.left.value == 2
+    for _qn in ('core.core_tt_to_qtt', 'grid.ind_tt_to_qtt',
+                'optima.optima_qtt'):
+        _f = prog.func(_qn)
+        if _f is None:
+            continue
+        for _if in ast.walk(_f.node):
+            if not (isinstance(_if, ast.If) and
+                    any(isinstance(x, ast.Raise) for x in _if.body) and
+                    isinstance(_if.test, ast.Compare) and
+                    len(_if.test.ops) == 1):
+                continue
+            _l = _rolesP.inline(_f.node, _if.test.left)
+            _r = _rolesP.inline(_f.node, _if.test.comparators[0])
+            if not (_is_pow2(_l) or _is_pow2(_r)):
+                continue
+            _op = _if.test.ops[0]
+            _st3 = 'ok' if isinstance(_op, ast.NotEq) else (
+                'violation' if isinstance(_op, (ast.Lt, ast.Gt, ast.LtE,
+                                                ast.GtE)) else 'unknown')
+            rep.add('P-pow2', _qn, 'the rejection test compares 2**q with '
+                    'the mode size by inequality (!=)', _st3,
+                    '' if _st3 == 'ok' else 'one-sided or unrecognised test '
+                    '"%s": it differs from != where int(log2(n)) is not the '
+                    'floor' % ast.unparse(_if.test),
+                    line=_if.lineno, file=_f.module.path)
     # --- tt_to_qtt / qtt_to_tt results
     for d in (2, 3):
         for spec, q in (('ttm4', 2), ('ttm8', 3)):
